@@ -44,7 +44,9 @@ enum Seg {
 struct Case {
     pieces: Vec<Piece>,
     seg: Seg,
-    with_b: bool,
+    /// 0 = runner A only; 1 = runner B too; 2 = runner B without the dispatched-request count in
+    /// the model comparison (set by `emit_case` for cases of class F25)
+    with_b: u8,
     #[serde(default)]
     tags: Vec<String>,
 }
@@ -74,14 +76,15 @@ fn segments(seg: &Seg, data: &[u8]) -> Vec<Vec<u8>> {
 }
 fn coq_case(c: &Case) -> String {
     let ps = coq_list(&c.pieces, |p| match p {
-        Piece::Lit(h) => format!("Lit (hx \"{}\")", h),
+        // sentinel-prefixed hexadecimal numerals of at most 256 bytes each (fast to elaborate)
+        Piece::Lit(h) => (0..h.len()).step_by(512).map(|i| format!("LitN 0x01{}", &h[i..(i + 512).min(h.len())])).collect::<Vec<_>>().join("; "),
         Piece::Rep(n, b) => format!("Rep {} {}", n, b),
     });
     let sg = match &c.seg {
         Seg::Cuts(v) => format!("(Cuts {})", coq_list(v, |x| x.to_string())),
         Seg::Every(k) => format!("(Every {})", k),
     };
-    format!("Case {} {} {}", ps, sg, coq_bool(c.with_b))
+    format!("Case {} {} {}", ps, sg, c.with_b)
 }
 
 // ------------------------------------------------------------------ observables
@@ -113,33 +116,75 @@ fn cksum(b: &[u8]) -> (u128, u128) {
     }
     (a, c)
 }
-fn vbytes(b: &[u8]) -> V {
+/// result value with byte strings as sentinel-prefixed numerals (prints as a `V` term)
+#[derive(Clone, Debug)]
+enum W {
+    Num(Vec<u8>),
+    N(u128),
+    T(&'static str, Vec<W>),
+    L(Vec<W>),
+}
+impl W {
+    fn coq(&self) -> String {
+        match self {
+            W::Num(b) => format!("(VN 0x01{})", hex(b)),
+            W::N(n) => format!("(VN {})", n),
+            W::T(t, a) => format!("(VT \"{}\" [{}])", t, a.iter().map(|x| x.coq()).collect::<Vec<_>>().join("; ")),
+            W::L(a) => format!("(VL [{}])", a.iter().map(|x| x.coq()).collect::<Vec<_>>().join("; ")),
+        }
+    }
+}
+fn field(b: &[u8]) -> Vec<u8> {
     if b.len() <= 64 {
-        V::h(b)
+        let mut v = vec![0u8, b.len() as u8];
+        v.extend_from_slice(b);
+        v
     } else {
         let (a, c) = cksum(b);
-        V::T("long", vec![V::us(b.len()), V::N(a), V::N(c)])
+        let mut v = vec![1u8];
+        v.extend_from_slice(&(b.len() as u64).to_be_bytes());
+        v.extend_from_slice(&(a as u64).to_be_bytes());
+        v.extend_from_slice(&(c as u64).to_be_bytes());
+        v
     }
 }
-fn v_msg(m: &Msg) -> V {
-    V::T(
-        "m",
-        vec![
-            vbytes(&m.method),
-            vbytes(&m.target),
-            V::N(m.version as u128),
-            V::L(m.headers.iter().map(|(n, v)| V::T("h", vec![vbytes(n), vbytes(v)])).collect()),
-            vbytes(&m.body),
-            V::b(m.done),
-        ],
+fn show_bytes(b: &[u8]) -> String {
+    if b.len() <= 64 {
+        format!("{:?}", String::from_utf8_lossy(b))
+    } else {
+        format!("<{} bytes>", b.len())
+    }
+}
+fn w_msg(m: &Msg) -> W {
+    let mut h = field(&m.method);
+    h.extend(field(&m.target));
+    h.push(m.version);
+    for (n, v) in &m.headers {
+        h.extend(field(n));
+        h.extend(field(v));
+    }
+    W::T("m", vec![W::Num(h), W::Num(field(&m.body)), W::N(m.done as u128)])
+}
+fn show_msg(m: &Msg) -> String {
+    format!(
+        "{} {} 1.{} [{}] body={} done={}",
+        show_bytes(&m.method),
+        show_bytes(&m.target),
+        m.version,
+        m.headers.iter().map(|(n, v)| format!("{}: {}", show_bytes(n), show_bytes(v))).collect::<Vec<_>>().join(", "),
+        show_bytes(&m.body),
+        m.done
     )
 }
-fn v_outcome(o: &Outcome) -> V {
-    let ms = V::L(o.msgs.iter().map(v_msg).collect());
+fn w_outcome(o: &Outcome) -> W {
+    let ms = W::L(o.msgs.iter().map(w_msg).collect());
     match &o.end {
-        End::Need { rest, mt } => V::T("need", vec![ms, V::us(*rest), V::t0(mt)]),
-        End::Err(e) => V::T("err", vec![ms, V::t0(e)]),
+        End::Need { rest, mt } => W::T("need", vec![ms, W::N(*rest as u128), W::T(mt, vec![])]),
+        End::Err(e) => W::T("err", vec![ms, W::T(e, vec![])]),
     }
+}
+fn show_outcome(o: &Outcome) -> String {
+    format!("{{{}}} end={:?}", o.msgs.iter().map(show_msg).collect::<Vec<_>>().join(" | "), o.end)
 }
 
 fn err_class(e: &actix_http::error::ParseError) -> &'static str {
@@ -227,7 +272,10 @@ fn parse_responses(mut w: &[u8]) -> Vec<(u16, bool)> {
             .find_map(|l| l.strip_prefix("content-length:").map(|v| v.trim().parse().unwrap_or(0)))
             .unwrap_or(0);
         out.push((status, marker));
-        let next = p + 4 + cl;
+        // a response to HEAD announces a length but carries no body
+        let after = &w[p + 4..];
+        let no_body = after.is_empty() || after.starts_with(b"HTTP/1.");
+        let next = p + 4 + if no_body { 0 } else { cl };
         if next > w.len() {
             break;
         }
@@ -280,6 +328,9 @@ fn run_b(segs: &[Vec<u8>]) -> Disp {
         }
         written.extend(io.take_written());
         let rs = parse_responses(&written);
+        if std::env::var("C01_DEBUG").is_ok() {
+            eprintln!("WRITTEN: {:?}\nfinished={:?} shutdown_called={} unread={}", String::from_utf8_lossy(&written), conn.finished, io.0.borrow().shutdown_called, io.unread());
+        }
         let closed = conn.finished.is_some() || io.0.borrow().shutdown_called > 0;
         Disp {
             own_statuses: rs.iter().filter(|r| !r.1 && r.0 != 100).map(|r| r.0).collect(),
@@ -318,8 +369,12 @@ struct Classes {
     f3_empty_size_line: bool,
     f19_head_in_band: bool,
     f22_chunk_error: bool,
+    /// filled by `emit_case` from `spans` and the segment ends
+    f25_pipelined_body_split: bool,
 }
 struct RefOut {
+    /// per message: offset of the end of its head, offset of the end of its body if it is complete
+    spans: Vec<(usize, Option<usize>)>,
     msgs: Vec<Msg>,
     end: RefEnd,
     classes: Classes,
@@ -397,6 +452,7 @@ fn ref_body_kind(method: &[u8], version: u8, headers: &[(Vec<u8>, Vec<u8>)]) -> 
 
 fn reference(s: &[u8]) -> RefOut {
     let mut msgs = vec![];
+    let mut spans: Vec<(usize, Option<usize>)> = vec![];
     let mut classes = Classes::default();
     let mut p = 0usize;
     loop {
@@ -405,9 +461,9 @@ fn reference(s: &[u8]) -> RefOut {
         let Some(hl) = rest.windows(4).position(|x| x == b"\r\n\r\n") else {
             // no complete head: oversized once MAX_BUFFER_SIZE bytes are waiting
             if rest.len() >= MAX_BUFFER_SIZE {
-                return RefOut { msgs, end: RefEnd::Rejected("431"), classes };
+                return RefOut { spans, msgs, end: RefEnd::Rejected("431"), classes };
             }
-            return RefOut { msgs, end: RefEnd::NeedMore { rest: rest.len() }, classes };
+            return RefOut { spans, msgs, end: RefEnd::NeedMore { rest: rest.len() }, classes };
         };
         let head_len = hl + 4;
         if head_len >= MAX_BUFFER_SIZE && head_len < MAX_BUFFER_SIZE + HW_BUFFER_SIZE {
@@ -421,7 +477,7 @@ fn reference(s: &[u8]) -> RefOut {
             lines.push(&h[q..e]);
             q = e + 2;
         }
-        let bad = |c| RefOut { msgs: msgs.clone(), end: RefEnd::Rejected(c), classes: classes.clone() };
+        let bad = |c| RefOut { spans: spans.clone(), msgs: msgs.clone(), end: RefEnd::Rejected(c), classes: classes.clone() };
         if lines.iter().any(|l| l.contains(&b'\r') || l.contains(&b'\n')) {
             return bad("4xx");
         }
@@ -456,13 +512,14 @@ fn reference(s: &[u8]) -> RefOut {
         headers.sort_by(|a, b| a.0.cmp(&b.0));
         msgs.push(Msg { method: rl[0].to_vec(), target: rl[1].to_vec(), version, headers, body: vec![], done: false });
         p += head_len;
+        spans.push((p, None));
         let m = msgs.last_mut().unwrap();
         // ---- body
         match kind {
-            RefBody::None => {}
+            RefBody::None => spans.last_mut().unwrap().1 = Some(p),
             RefBody::Tunnel => {
                 m.body.extend_from_slice(&s[p..]);
-                return RefOut { msgs, end: RefEnd::Tunnel, classes };
+                return RefOut { spans, msgs, end: RefEnd::Tunnel, classes };
             }
             RefBody::Length(n) => {
                 let avail = (s.len() - p) as u64;
@@ -470,9 +527,10 @@ fn reference(s: &[u8]) -> RefOut {
                 m.body.extend_from_slice(&s[p..p + k]);
                 p += k;
                 if (k as u64) < n {
-                    return RefOut { msgs, end: RefEnd::NeedMore { rest: 0 }, classes };
+                    return RefOut { spans, msgs, end: RefEnd::NeedMore { rest: 0 }, classes };
                 }
                 m.done = true;
+                spans.last_mut().unwrap().1 = Some(p);
             }
             RefBody::Chunked => {
                 // chunked-body = *chunk last-chunk CRLF      (no trailers: unsupported by the server)
@@ -483,7 +541,7 @@ fn reference(s: &[u8]) -> RefOut {
                     macro_rules! next {
                         () => {{
                             if p >= s.len() {
-                                return RefOut { msgs, end: RefEnd::NeedMore { rest: 0 }, classes };
+                                return RefOut { spans, msgs, end: RefEnd::NeedMore { rest: 0 }, classes };
                             }
                             p += 1;
                             s[p - 1]
@@ -492,7 +550,7 @@ fn reference(s: &[u8]) -> RefOut {
                     macro_rules! reject {
                         () => {{
                             classes.f22_chunk_error = true;
-                            return RefOut { msgs, end: RefEnd::Rejected("chunk"), classes };
+                            return RefOut { spans, msgs, end: RefEnd::Rejected("chunk"), classes };
                         }};
                     }
                     let mut b = next!();
@@ -541,6 +599,7 @@ fn reference(s: &[u8]) -> RefOut {
                             reject!();
                         }
                         msgs.last_mut().unwrap().done = true;
+                        spans.last_mut().unwrap().1 = Some(p);
                         break 'chunks;
                     }
                     let avail = (s.len() - p) as u128;
@@ -548,7 +607,7 @@ fn reference(s: &[u8]) -> RefOut {
                     msgs.last_mut().unwrap().body.extend_from_slice(&s[p..p + k]);
                     p += k;
                     if (k as u128) < size {
-                        return RefOut { msgs, end: RefEnd::NeedMore { rest: 0 }, classes };
+                        return RefOut { spans, msgs, end: RefEnd::NeedMore { rest: 0 }, classes };
                     }
                     if next!() != b'\r' {
                         reject!();
@@ -563,14 +622,31 @@ fn reference(s: &[u8]) -> RefOut {
 }
 
 // ------------------------------------------------------------------ oracle
-fn judge(case: &Case, data: &[u8], a: &Outcome, base: &Outcome, b: Option<&Disp>, r: &RefOut) -> (bool, String, String) {
+/// which known-finding classes may explain a failure of each oracle component
+fn explain(cl: &Classes, allowed: &[&'static str]) -> &'static str {
+    for c in allowed {
+        let inside = match *c {
+            "F3-empty-chunk-size" => cl.f3_empty_size_line,
+            "F19-head-in-band" => cl.f19_head_in_band,
+            "F22-chunk-error-no-4xx" => cl.f22_chunk_error,
+            "F25-pipelined-body-split" => cl.f25_pipelined_body_split,
+            _ => false,
+        };
+        if inside {
+            return c;
+        }
+    }
+    ""
+}
+
+fn judge(a: &Outcome, base: &Outcome, b: Option<&Disp>, r: &RefOut) -> (bool, String, String) {
     let cl = &r.classes;
     let mut fails: Vec<(String, &'static str)> = vec![]; // (why, class that may explain it)
     // (i) segmentation independence
     if a != base {
         fails.push((
-            format!("segmented run differs from baseline run: {} vs {}", v_outcome(a).show(), v_outcome(base).show()),
-            if cl.f19_head_in_band { "F19-head-in-band" } else { "" },
+            format!("segmented run differs from baseline run: {} vs {}", show_outcome(a), show_outcome(base)),
+            explain(cl, &["F19-head-in-band"]),
         ));
     }
     // (ii) agreement with the RFC reference (on the baseline run)
@@ -588,16 +664,9 @@ fn judge(case: &Case, data: &[u8], a: &Outcome, base: &Outcome, b: Option<&Disp>
         }
     };
     if base.msgs != r.msgs || !expect_end_ok(base) {
-        let class = if cl.f3_empty_size_line {
-            "F3-empty-chunk-size"
-        } else if cl.f19_head_in_band {
-            "F19-head-in-band"
-        } else {
-            ""
-        };
         fails.push((
-            format!("implementation differs from RFC 7230 reference: impl {} ; reference end {:?} with {} message(s)", v_outcome(base).show(), r.end, r.msgs.len()),
-            class,
+            format!("implementation differs from RFC 7230 reference: impl {} ; reference end {:?} with {} message(s)", show_outcome(base), r.end, r.msgs.len()),
+            explain(cl, &["F3-empty-chunk-size", "F19-head-in-band"]),
         ));
     }
     // (iii) dispatcher level
@@ -607,41 +676,39 @@ fn judge(case: &Case, data: &[u8], a: &Outcome, base: &Outcome, b: Option<&Disp>
             RefEnd::Rejected(c) => {
                 let want: u16 = if *c == "431" { 431 } else { 400 };
                 if d.own_statuses != vec![want] {
-                    let class = if cl.f3_empty_size_line {
-                        "F3-empty-chunk-size"
-                    } else if *c == "chunk" && cl.f22_chunk_error {
-                        "F22-chunk-error-no-4xx"
-                    } else if cl.f19_head_in_band {
-                        "F19-head-in-band"
+                    let allowed: &[&'static str] = if *c == "chunk" {
+                        &["F3-empty-chunk-size", "F22-chunk-error-no-4xx"]
                     } else {
-                        ""
+                        &["F19-head-in-band", "F25-pipelined-body-split"]
                     };
-                    fails.push((format!("rejected stream ({c}): dispatcher's own responses {:?}, want [{want}]", d.own_statuses), class));
+                    fails.push((format!("rejected stream ({c}): dispatcher's own responses {:?}, want [{want}]", d.own_statuses), explain(cl, allowed)));
                 }
                 if !d.closed {
-                    fails.push(("rejected stream: connection not closed".into(), if cl.f3_empty_size_line { "F3-empty-chunk-size" } else { "" }));
+                    fails.push(("rejected stream: connection not closed".into(), explain(cl, &["F3-empty-chunk-size"])));
                 }
                 if d.dispatched > nref {
                     fails.push((
                         format!("{} requests dispatched, only {} precede the rejection point", d.dispatched, nref),
-                        if cl.f3_empty_size_line { "F3-empty-chunk-size" } else if cl.f19_head_in_band { "F19-head-in-band" } else { "" },
+                        explain(cl, &["F3-empty-chunk-size", "F19-head-in-band"]),
                     ));
                 }
-                if *c != "chunk" && d.dispatched != nref && !cl.f19_head_in_band {
-                    fails.push((format!("{} requests dispatched, {} precede the rejection point", d.dispatched, nref), ""));
+                if *c != "chunk" && d.dispatched < nref {
+                    fails.push((
+                        format!("only {} requests dispatched, {} precede the rejection point", d.dispatched, nref),
+                        explain(cl, &["F19-head-in-band", "F25-pipelined-body-split"]),
+                    ));
                 }
             }
             _ => {
                 if !d.own_statuses.is_empty() || d.dispatched != nref {
                     fails.push((
                         format!("accepted stream: dispatcher's own responses {:?}, dispatched {} of {}", d.own_statuses, d.dispatched, nref),
-                        if cl.f19_head_in_band { "F19-head-in-band" } else { "" },
+                        explain(cl, &["F19-head-in-band", "F25-pipelined-body-split"]),
                     ));
                 }
             }
         }
     }
-    let _ = (case, data);
     if fails.is_empty() {
         return (true, String::new(), String::new());
     }
@@ -666,11 +733,24 @@ fn emit_case(em: &mut Emitter, id: String, mut case: Case) {
         case.seg = Seg::Cuts(sanitize_cuts(c, data.len()));
     }
     let segs = segments(&case.seg, &data);
-    let r = reference(&data);
+    let mut r = reference(&data);
+    // class F25: at the end of some read, a request other than the first one has its body in flight
+    let mut ends = vec![];
+    let mut acc = 0;
+    for sg in &segs {
+        acc += sg.len();
+        ends.push(acc);
+    }
+    r.classes.f25_pipelined_body_split = r.spans.iter().enumerate().any(|(i, (he, be))| {
+        i >= 1 && ends.iter().any(|&c| *he <= c && be.map_or(true, |e| c < e))
+    });
+    if case.with_b != 0 {
+        case.with_b = if r.classes.f25_pipelined_body_split { 2 } else { 1 };
+    }
     let res = catch(|| {
         let a = run_a(&segs);
         let base = run_a(&segments(&baseline_seg(data.len()), &data));
-        let b = if case.with_b { Some(run_b(&segs)) } else { None };
+        let b = if case.with_b != 0 { Some(run_b(&segs)) } else { None };
         (a, base, b)
     });
     let mut tags = case.tags.clone();
@@ -678,8 +758,11 @@ fn emit_case(em: &mut Emitter, id: String, mut case: Case) {
     tags.push(format!("len:{}", match data.len() { 0..=255 => "0-255", 256..=4095 => "256-4k", 4096..=65535 => "4k-64k", _ => "64k+" }));
     tags.push(format!("ref:{}", match &r.end { RefEnd::NeedMore { .. } => "needmore", RefEnd::Tunnel => "tunnel", RefEnd::Rejected(c) => *c }));
     tags.push(format!("msgs:{}", r.msgs.len().min(7)));
-    if case.with_b {
+    if case.with_b != 0 {
         tags.push("runner:B".into());
+    }
+    if r.classes.f25_pipelined_body_split {
+        tags.push("class:F25".into());
     }
     if r.classes.f3_empty_size_line {
         tags.push("class:F3".into());
@@ -696,24 +779,18 @@ fn emit_case(em: &mut Emitter, id: String, mut case: Case) {
     let input = serde_json::to_value(&case).unwrap();
     match res {
         Ok((a, base, b)) => {
-            let (ok, why, class) = judge(&case, &data, &a, &base, b.as_ref(), &r);
+            let (ok, why, class) = judge(&a, &base, b.as_ref(), &r);
             let vb = match &b {
-                None => V::t0("nob"),
+                None => W::T("nob", vec![]),
                 Some(d) => {
                     let is_err = matches!(a.end, End::Err(_));
                     let is_io = a.end == End::Err("io");
-                    V::T(
-                        "b",
-                        vec![
-                            V::L(d.own_statuses.iter().map(|s| V::N(*s as u128)).collect()),
-                            if is_io { V::opt(None::<usize>, V::us) } else { V::opt(Some(d.dispatched), V::us) },
-                            V::N(if is_err { d.closed as u128 } else { 2 }),
-                        ],
-                    )
+                    let count = if is_io || case.with_b == 2 { W::T("none", vec![]) } else { W::T("some", vec![W::N(d.dispatched as u128)]) };
+                    W::T("b", vec![W::L(d.own_statuses.iter().map(|s| W::N(*s as u128)).collect()), count, W::N(if is_err { d.closed as u128 } else { 2 })])
                 }
             };
-            let v = V::T("c01", vec![v_outcome(&a), vb]);
-            let show = format!("{}{}", v.show(), b.map(|d| format!(" disp={:?}", d)).unwrap_or_default());
+            let v = W::T("c01", vec![w_outcome(&a), vb]);
+            let show = format!("{}{}", show_outcome(&a), b.map(|d| format!(" disp={:?}", d)).unwrap_or_default());
             em.emit(CaseOut {
                 id,
                 input,
@@ -895,10 +972,10 @@ fn gen_size_line(b: &mut Builder, rng: &mut Rng, n: usize) {
     b.mark(); // inside the size line
     b.lit(&s.as_bytes()[1..]);
     if rng.chance(1, 4) {
-        let e = *rng.pick(&[";a=b", " ;x", ";q=\"1 2 3\"", "\t", " ", ";\x80\xff", ";", "; a ; b=c"]);
-        b.lit(&e.as_bytes()[..1]);
+        let e: &[u8] = *rng.pick(&[&b";a=b"[..], b" ;x", b";q=\"1 2 3\"", b"\t", b" ", b";\x80\xff", b";", b"; a ; b=c"]);
+        b.lit(&e[..1]);
         b.mark();
-        b.lit(&e.as_bytes()[1..]);
+        b.lit(&e[1..]);
         b.tag("chunk:ext");
     }
     b.lit(b"\r");
@@ -1090,7 +1167,9 @@ fn gen_case(rng: &mut Rng, thorough: bool) -> Case {
     } else {
         match rng.below(10) {
             0 => Seg::Cuts(vec![]),
-            1 | 2 => Seg::Every(1),
+            // (1-byte reads of long streams only in the thorough tier: the model's body accumulator
+            // is quadratic in the number of chunks)
+            1 | 2 => Seg::Every(if len <= 3000 || (thorough && len <= 12000) { 1 } else { *rng.pick(&[5usize, 13, 100]) }),
             3 => Seg::Every(*rng.pick(&[2usize, 3, 7, 64, 1024])),
             4 | 5 => {
                 let k = rng.range(1, 6);
@@ -1115,7 +1194,7 @@ fn gen_case(rng: &mut Rng, thorough: bool) -> Case {
         }
     };
     let nseg = match &seg { Seg::Every(k) => len / k + 1, Seg::Cuts(c) => c.len() + 1 };
-    let with_b = want_b && all_plain && nseg <= 3000;
+    let with_b = (want_b && all_plain && nseg <= 3000) as u8;
     Case { pieces, seg, with_b, tags: b.tags.into_iter().collect() }
 }
 
